@@ -22,7 +22,7 @@ type c18Case struct {
 	Value string `json:"value,omitempty"`
 }
 
-var c18Lines = []string{"a: 1", "b: x", "# c", "---", "...", "- x", "k: |", "  ---", "  t", "[TestA - 2]", "/-/-/-/", "", "[TestQ - 7]", "x: $1 %d"}
+var c18Lines = []string{"a: 1", "b: x", "# c", "---", "...", "- x", "k: |", "  ---", "  t", "[TestA - 2]", "/-/-/-/", "", "[TestQ - 7]", "x: $1 %d", "--- "}
 
 type c18Nested struct {
 	Name  string            `yaml:"name"`
